@@ -14,7 +14,9 @@ import (
 	"io"
 	"net"
 	"os"
+	"runtime"
 	"sync"
+	"sync/atomic"
 	"testing"
 	"time"
 
@@ -31,8 +33,9 @@ type HsScenario struct {
 	Mode         string    `json:"mode"` // plain | resume | inject | token
 	VN           bool      `json:"vn,omitempty"`
 	Reject       bool      `json:"reject_0rtt,omitempty"`
-	Early        int       `json:"early,omitempty"` // bytes of early data on the resumed connection
-	Reply        int       `json:"reply,omitempty"` // bytes the server application answers a request with (0: "ok")
+	Early        int       `json:"early,omitempty"`           // bytes of early data on the resumed connection
+	CancelAtVNUS int64     `json:"cancel_at_vn_us,omitempty"` // > 0: the application cancels the dial this many microseconds after the (genuine) Version Negotiation packet reached the client
+	Reply        int       `json:"reply,omitempty"`           // bytes the server application answers a request with (0: "ok")
 	Inject       []WInject `json:"inject,omitempty"`
 	Token        string    `json:"token,omitempty"` // valid | rebound | expired | truncated | flipped | otherkey
 	AgeS         int64     `json:"age_s,omitempty"`
@@ -111,6 +114,10 @@ func genHs(seed uint64, tier string) KScenario {
 	}
 	if r.P(0.2) {
 		sc.Net.Burst = r.Pick(2, 4, 16)
+	}
+	if sc.VN && sc.Mode == "plain" && r.P(0.3) {
+		// the dial is cancelled while the client replaces its connection by one in the negotiated version
+		sc.CancelAtVNUS = int64(r.Pick(1+r.N(40), 1+r.N(40), 1+r.N(40), 200, 1000, 5000))
 	}
 	if !sc.VN && r.P(0.25) {
 		sc.Cfg.Version = 2 // QUIC v2 from the start (other Initial salt, Retry key, packet type bits)
@@ -339,8 +346,29 @@ func runHs(t *testing.T, ksc KScenario, res *KResult) {
 			}
 		}
 	}
+	var curCancel atomic.Value // context.CancelFunc of the dial in progress
+	var vnCancelled, dialDone atomic.Bool
 	w.OnDeliver = func(rec *DgramRec, data []byte, damaged bool) {
 		prevDeliver(rec, data, damaged)
+		if rec.Dir == 1 && sc.CancelAtVNUS > 0 && !damaged && len(rec.Pkts) == 1 && rec.Pkts[0].Type == TapVN && vnCancelled.CompareAndSwap(false, true) {
+			if c, ok := curCancel.Load().(context.CancelFunc); ok {
+				res.Probe("dial-cancelled-at-version-negotiation")
+				go func() {
+					if sc.CancelAtVNUS < 100 {
+						// the same instant, a few scheduling steps later: somewhere between the connection's run loop
+						// deciding to be re-created and the dialer learning of it
+						for i := int64(0); i < sc.CancelAtVNUS; i++ {
+							runtime.Gosched()
+						}
+					} else {
+						time.Sleep(time.Duration(sc.CancelAtVNUS) * time.Microsecond)
+					}
+					if !dialDone.Load() { // (a dial that has returned is not cancelled any more: the context also serves the exchange)
+						c()
+					}
+				}()
+			}
+		}
 		if rec.Dir != 0 {
 			return // (every delivered copy counts: a duplicated datagram is bytes received from that address)
 		}
@@ -463,6 +491,8 @@ func runHs(t *testing.T, ksc KScenario, res *KResult) {
 		r := &hsDialResult{}
 		before := len(w.Tap.Conns)
 		ctx, cancel := context.WithTimeout(context.Background(), horizon)
+		curCancel.Store(cancel)
+		dialDone.Store(false)
 		defer cancel()
 		adone := make(chan struct{}) // closed when a server connection completed its handshake (or accepting failed)
 		var swg sync.WaitGroup
@@ -523,6 +553,7 @@ func runHs(t *testing.T, ksc KScenario, res *KResult) {
 		} else {
 			conn, err = nodes.Dial(ctx)
 		}
+		dialDone.Store(true)
 		r.dialReturned = time.Duration(w.NowNS() - t0)
 		r.conn, r.cerr = conn, err
 		if err != nil {
@@ -874,6 +905,10 @@ func hsCheckOutcome(w *World, sc *HsScenario, n *Nodes, d *hsDialResult, idx int
 		cerr := d.cerr
 		if cerr != nil && d.conn == nil && errors.Is(cerr, context.DeadlineExceeded) {
 			cerr = nil
+		}
+		if sc.CancelAtVNUS > 0 && errors.Is(cerr, context.Canceled) {
+			res.Probe("cancelled-dial-returned")
+			cerr = nil // the application's own doing; what matters is that Dial returned (and that nothing is left behind)
 		}
 		if cerr != nil || d.serr != nil {
 			serr := d.serr
